@@ -17,6 +17,7 @@ let root (u : Model.z) (k : Model.z) : (Model.z * bool) option =
   end
 let fuel_np = nat_of_int 4000
 let fuel_f = nat_of_int 400
+let fuel_ipp = nat_of_int 60000
 let ob = function Some true -> "1" | Some false -> "0" | None -> "NONE"
 let oz = function Some x -> sz x | None -> "NONE"
 let range f a b =
@@ -90,7 +91,7 @@ let () = run_lines (fun toks ->
                        "[" ^ wstring w ^ "] " ^ (match optv with Some v -> sz v | None -> zlist (List.map fst l)))
      | "divisors.n" -> (match Model.divisors_of_model (replay (rest 1)) fuel_f a.(0) with None -> "NONE" | Some l -> zlist l)
      | "divisors.lf" -> zlist (Model.divisors_model (pairup (rest 0)))
-     | "ipp" -> (match Model.isprimepower_model isp root (nat_of_int 8) fuel_f garbage a.(0) with
+     | "ipp" -> (match Model.isprimepower_model isp root (nat_of_int 16) fuel_ipp garbage a.(0) with
                  | None -> "NONE" | Some (e, q) -> sz e ^ " " ^ sz q)
      | _ -> "UNKNOWN-OP")
   | _ -> "BAD-LINE")
